@@ -1,12 +1,14 @@
 #!/bin/sh
 # tools/seed_queue.sh <Cxx> <crate> [prop] [r1 <n>]: confirm round-2 seeds 3 and 4 of a property (default), or the
-# round-1 seed <n> (from /tmp/seed) when the 4th word is r1
+# round-1 seed <n> (from /tmp/seed) when the 4th word is r1; round-3 seeds 5 and 6 (from /tmp/seed3) when it is r3
 P=$1; CR=$2; PR=${3:-$1}
 if [ "$4" = r1 ]; then
   FEATURES=$SEEDFEATURES SEEDROOT=/tmp/seed /verif/tools/seed_confirm.sh $P $5 $CR $PR > /verif/.build/sc-$P-$5.log 2>&1
   exit 0
 fi
-for n in 3 4; do
-  [ -f /tmp/seed2/$P/out/patch-$n.diff ] || { echo "no patch-$n for $P" > /verif/.build/sc-$P-$n.log; continue; }
-  FEATURES=$SEEDFEATURES SEEDROOT=/tmp/seed2 /verif/tools/seed_confirm.sh $P $n $CR $PR > /verif/.build/sc-$P-$n.log 2>&1
+ROOT=/tmp/seed2; NS="3 4"
+if [ "$4" = r3 ]; then ROOT=/tmp/seed3; NS="5 6"; fi
+for n in $NS; do
+  [ -f $ROOT/$P/out/patch-$n.diff ] || { echo "no patch-$n for $P" > /verif/.build/sc-$P-$n.log; continue; }
+  FEATURES=$SEEDFEATURES SEEDROOT=$ROOT /verif/tools/seed_confirm.sh $P $n $CR $PR > /verif/.build/sc-$P-$n.log 2>&1
 done
